@@ -44,8 +44,17 @@ def qforall(vs, body, patterns=None):
     if z3.is_app_of(e, z3.Z3_OP_ITE):
       return True
     return any(has_ite(c, seen) for c in e.children())
-  if patterns and any(has_ite(p, set()) for p in patterns if not isinstance(p, z3.PatternRef)):
-    patterns = None
+  def terms(p):
+    if isinstance(p, z3.PatternRef):
+      ctx = p.ctx
+      return [z3.z3._to_expr_ref(z3.Z3_get_pattern(ctx.ref(), p.ast, i), ctx) for i in range(z3.Z3_get_pattern_num_terms(ctx.ref(), p.ast))]
+    return [p]
+  if patterns:
+    try:
+      if any(has_ite(t, set()) for p in patterns for t in terms(p)):
+        patterns = None
+    except Exception:
+      pass
   if patterns:
     try:
       return z3.ForAll(vs, body, patterns=patterns)
